@@ -6,6 +6,7 @@ import (
 	"time"
 
 	"github.com/nuetzliches/hookaido/internal/queue"
+	"github.com/nuetzliches/hookaido/internal/verifhook"
 )
 
 // OpError is a transport-neutral operation error for pull worker flows.
@@ -122,6 +123,7 @@ func (s *Server) AckSingle(route string, leaseID string) *OpError {
 		}
 	}
 
+	verifhook.Point("pull.ack.stored")
 	s.observeAck(route, 204, leaseID, false)
 	s.rememberCompletedLease(leaseID, recentLeaseOpAck)
 	return nil
@@ -234,6 +236,7 @@ func (s *Server) NackSingle(route string, leaseID string, dead bool, reason stri
 				Detail:     "mark dead failed",
 			}
 		}
+		verifhook.Point("pull.nack.stored")
 		s.observeNack(route, 204, leaseID, false)
 		s.rememberCompletedLease(leaseID, recentLeaseOpNack)
 		return nil
@@ -256,6 +259,7 @@ func (s *Server) NackSingle(route string, leaseID string, dead bool, reason stri
 		}
 	}
 
+	verifhook.Point("pull.nack.stored")
 	s.observeNack(route, 204, leaseID, false)
 	s.rememberCompletedLease(leaseID, recentLeaseOpNack)
 	return nil
